@@ -54,6 +54,14 @@ MC_CONSTS = {
                             MultCounts="NoMult", MaxDepth=1, MaxOpen=2, EmitAll="TRUE"),
     "thorough_ringfault": dict(MaxLen=8, NodeToks="Nodes1", SymToks="SymOne", RingToks="Rings3",
                                MultCounts="NoMult", MaxDepth=1, MaxOpen=3, EmitAll="TRUE"),
+    # ring index 0 in both spellings ("0", "%00"), with an order symbol on the marker
+    "quick_ring0": dict(MaxLen=7, NodeToks="Nodes1", SymToks="SymOne", RingToks="Rings01",
+                        MultCounts="NoMult", MaxDepth=1, MaxOpen=2, EmitAll="FALSE"),
+    # duplicate / dangling ring bonds together with an order symbol (on the marker or on the duplicated edge) and ring index 0
+    "quick_dupsym": dict(MaxLen=6, NodeToks="Nodes1", SymToks="SymQuick", RingToks="Rings01",
+                         MultCounts="NoMult", MaxDepth=0, MaxOpen=2, EmitAll="TRUE"),
+    "thorough_dupsym": dict(MaxLen=7, NodeToks="Nodes1", SymToks="SymQuick", RingToks="Rings01",
+                            MultCounts="Mult2", MaxDepth=1, MaxOpen=2, EmitAll="TRUE"),
     "sim": dict(MaxLen=40, NodeToks="Nodes4", SymToks="SymAll", RingToks="Rings4",
                 MultCounts="NoMult", MaxDepth=4, MaxOpen=4, EmitAll="FALSE"),
     "sim_mult": dict(MaxLen=24, NodeToks="Nodes3", SymToks="SymAll", RingToks="Rings2",
@@ -218,7 +226,7 @@ def run_c04(tier):
                   "rendered text; non-trivial = contains a bond symbol, ring marker, branch, multiplier or annotation")
     key = "quick_plain" if tier == "quick" else "thorough_plain"
     toks, r = mc_run(check, key)
-    for extra in ("quick_onename", "quick_allsyms"):
+    for extra in ("quick_onename", "quick_allsyms", "quick_ring0"):
         more, _ = mc_run(check, extra, invariants=False)
         toks = toks + more
     check.exhaustive = True
@@ -344,6 +352,13 @@ def inject_faults(toks, rng, per=4):
         if free and i + 1 < len(toks) and toks[i + 1]["k"] == "N":
             m = render.tok("R", "d", free[-1])
             out.append(toks[:i + 1] + [m, toks[i + 1], m] + toks[i + 2:])
+            # ... with an order symbol on the opening marker / on the duplicated edge / on the closing marker
+            sym = render.tok("B", rng.choice(["=", "#", "$", "."]))
+            out.append(toks[:i + 1] + [sym, m, toks[i + 1], m] + toks[i + 2:])
+            out.append(toks[:i + 1] + [m, sym, toks[i + 1], m] + toks[i + 2:])
+    # a dangling ring index 0 ("0" / "%00") behind the last node
+    if 0 not in used and nodes and nodes[-1] == len(toks) - 1:
+        out.append(toks + [render.tok("R", rng.choice(["d", "%"]), 0)])
     return out
 
 
@@ -351,7 +366,8 @@ def graph_fault_records(check, tier):
     key = "quick_fault" if tier == "quick" else "thorough_fault"
     toks, r = mc_run(check, key)
     toks2, r2 = mc_run(check, "quick_ringfault" if tier == "quick" else "thorough_ringfault")
-    toks = toks + toks2
+    toks3, r3 = mc_run(check, "quick_dupsym" if tier == "quick" else "thorough_dupsym")
+    toks = toks + toks2 + toks3
     nsim = 150 if tier == "quick" else 1500
     sim, _ = mc_run(check, "sim", invariants=False, simulate=f"num={nsim}", depth=30, seed=common.SEED + 3)
     rng = common.rng("c20")
